@@ -15,6 +15,10 @@ def c01(tier, seed):
         # the source holds a REFERENCE to one of its own lists / dictionaries where the destination has a container
         GEN("Gen_Merge", dict(UA="<-U_FhtSmall", UB="<-U_FhtRef", PolSet="<-Pols", FosSet="<-FosNone"), "merge",
             replay_args=["--reprs", "map,cfg"], label="Gen_Merge/references-to-containers", min_cases=1000),
+        # the DESTINATION holds a reference to one of its own sub-configs; the source mentions the referring setting, the
+        # referred one, both or neither: the referred setting is not written to through the reference
+        GEN("Gen_Merge", dict(UA="<-U_FhtRef", UB="<-U_DstRefB", PolSet="<-Pols", FosSet="<-FosNone"), "merge",
+            replay_args=["--reprs", "map,cfg"], label="Gen_Merge/references-in-the-destination", min_cases=400),
         TRACE("Trace_Merge", "merge", n=3000 if q else 40000, label="Trace_Merge/random"),
     ]
 
@@ -50,6 +54,9 @@ STORE_MERGE = dict(MaxNodes=14, MaxArr=3, MaxHandles=3, Names="<-NamesMerge", Id
 STORE_CHURN = dict(MaxNodes=6, MaxArr=3, MaxHandles=2, Names="<-NamesChurn", Idxs="<-IdxsChurn", SetVals="<-ValsCore",
                    Frags="<-NoFrags", MergePols="<-PolsTwo", SetChildNames="<-NoNames", SweepAddrs="<-AddrsChurn",
                    Roots2="<-RootB", WithEmbed=False, WithParent=False)
+STORE_EMPTY = dict(MaxNodes=10, MaxArr=3, MaxHandles=3, Names="<-NamesEmpty", Idxs="<-IdxsEmpty", SetVals="<-ValsCore",
+                   Frags="<-FragsEmpty", MergePols="<-PolsOne", SetChildNames="<-NoNames", SweepAddrs="<-AddrsEmpty",
+                   Roots2="<-RootB", WithEmbed=True, WithParent=False)
 CTX_DEVS = ["DetachKeepsCtx", "SetCtxOnlyIfEmpty", "CopyKeepsStoredFld"]
 
 
@@ -72,6 +79,9 @@ def store_stages(tier, comps, trace_comps, mc_inv, mc_props, refute, only_devs, 
                       only_devs=only_devs, min_cases=20000))
         st.append(GEN("Gen_Store", dict(STORE_CHURN, MaxOps=5 if q else 6), "store", replay_args=["--components", comps],
                       label="Gen_Store/list-churn", only_devs=only_devs, min_cases=5000))
+    # empty sub-configs that outlive their copy (merged from / embedded out of a held config), then written to on one side
+    st.append(GEN("Gen_Store", dict(STORE_EMPTY, MaxOps=3), "store", replay_args=["--components", comps + ",obs,sweep"],
+                  label="Gen_Store/empty-subconfigs", only_devs=None, min_cases=500))
     st += [
         # the merge universe and the random sessions contain Parent(): its RESULT depends on the recorded
         # parent link, so all layers of the open ctx finding are needed there whatever the components are
@@ -141,10 +151,16 @@ def c09(tier, seed):
             label="Gen_Normalize/map-orders", min_cases=10000),
         GEN("Gen_Merge", dict(UA=u, UB=u, PolSet="<-Pols", FosSet="<-FosNone"), "merge",
             replay_args=["--reprs", "map,cfg", "--repeat", k], label="Gen_Merge/map-orders", min_cases=1000),
+        # a destination setting that REFERS to another one, both mentioned by the source: the outcome must not depend on
+        # which of the two the runtime visits first
+        GEN("Gen_Merge", dict(UA="<-U_FhtRef", UB="<-U_DstRefB", PolSet="<-Pols", FosSet="<-FosNone"), "merge",
+            replay_args=["--reprs", "map,cfg", "--repeat", k], label="Gen_Merge/destination-references-x-orders", min_cases=400),
         # inputs that are REJECTED: several faulty entries (unsupported type, non-string keys, a nested duplicate) in one
         # map - the same kind of error every time
         MC("Gen_NormFaults", dict(Groups="={}"), invariants=["RejectedIffFaulty"], label="MC_NormFaults/rejected-iff-faulty"),
         GEN("Gen_NormFaults", {}, "normfaults", replay_args=["--repeat", "12" if q else "48"], label="Gen_NormFaults/faulty-entries-x-orders", min_cases=250),
+        # pre-filled collections (maps of interface{} values among them) whose unmentioned entries are validated: one outcome
+        GEN("Gen_Reach", {}, "reach", replay_args=["--repeat", "24" if q else "96"], label="Gen_Reach/wrappers-x-orders", min_cases=200),
         # settings that reference each other: create + Unpack of the whole config, repeated; the per-call cache and
         # the active set are shared between the fields, which the runtime visits in a fresh random order every time
         varexp_gen(tier, label="Gen_VarExp/unpack-orders", extra=["--repeat", "6" if q else "16", "--every", "2" if q else "1"]),
